@@ -2456,6 +2456,349 @@ def d6_memoised_functions(ck, mods):
     return len(mods)
 
 
+# ---------------------------------------------------------------------------
+# D5 worker-split: the result must not depend on the number of worker processes
+#
+# Role: `<pool>.map(F, [B[lo:hi] for ... in LIMS])` - every worker receives a SLICE of the same sequence B and the
+# partial results are joined.  Whatever the number of workers, the slices must cover B: the first start is 0, each
+# stop is the next start, the last stop reaches len(B) (slices clip, so `>= len(B)` in the accepted closed forms).
+# The limits are read symbolically (ranges, zip of ranges, `list(range) + [tail]`, pair comprehensions over range(n),
+# the shifted pairing zip(L[:-1], L[1:]), np.array_split); integer arithmetic with // and % is compared in sympy
+# (a % b spelled a - b*floor(a/b)).  Nothing is evaluated on sample values.
+
+_MAP_ATTRS = {'map', 'imap', 'map_async', 'starmap'}
+
+
+class _SplitFar(Exception):
+    pass
+
+
+class _IntLift:
+    """ast integer expression -> sympy; what is not +,-,*,//,%,min,max,int() of names/constants becomes a symbol
+    named by its canonical text (`opaque`), so that equal texts compare equal."""
+
+    def __init__(self, n_texts):
+        from ..symx import sympy
+        self.sp = sympy()
+        self.N = self.sp.Symbol('N__', integer=True, nonnegative=True)
+        self.n_texts = set(n_texts)
+        self.opaque = set()
+        self.minmax = False
+
+    def sym(self, text, opaque=False):
+        s = self.sp.Symbol(text.replace(' ', ''), integer=True, positive=True)     # sizes, counts, steps
+        if opaque:
+            self.opaque.add(s)
+        return s
+
+    def __call__(self, e, env=None):
+        sp = self.sp
+        env = env or {}
+
+        def go(n):
+            if n is None:
+                raise _SplitFar('open bound')
+            if u(n) in self.n_texts:
+                return self.N
+            if isinstance(n, ast.Constant) and isinstance(n.value, int) and not isinstance(n.value, bool):
+                return sp.Integer(n.value)
+            if isinstance(n, ast.Name):
+                return env[n.id] if n.id in env else self.sym(n.id)
+            if isinstance(n, ast.UnaryOp) and isinstance(n.op, (ast.USub, ast.UAdd)):
+                v = go(n.operand)
+                return -v if isinstance(n.op, ast.USub) else v
+            if isinstance(n, ast.BinOp):
+                if isinstance(n.op, (ast.Add, ast.Sub, ast.Mult, ast.FloorDiv, ast.Mod)):
+                    a, b = go(n.left), go(n.right)
+                    if isinstance(n.op, ast.Add):
+                        return a + b
+                    if isinstance(n.op, ast.Sub):
+                        return a - b
+                    if isinstance(n.op, ast.Mult):
+                        return a * b
+                    if isinstance(n.op, ast.FloorDiv):
+                        return sp.floor(a / b)
+                    return a - b * sp.floor(a / b)
+            if isinstance(n, ast.Call) and isinstance(n.func, ast.Name) and not n.keywords:
+                if n.func.id in ('min', 'max') and len(n.args) >= 2 and not any(isinstance(a, ast.Starred) for a in n.args):
+                    self.minmax = True
+                    return (sp.Min if n.func.id == 'min' else sp.Max)(*[go(a) for a in n.args])
+                if n.func.id == 'int' and len(n.args) == 1 and isinstance(n.args[0], (ast.BinOp, ast.Name, ast.Constant)) \
+                        and not (isinstance(n.args[0], ast.BinOp) and isinstance(n.args[0].op, ast.Div)):
+                    return go(n.args[0])
+            if any(isinstance(x, ast.Name) and x.id in env for x in ast.walk(n)):
+                raise _SplitFar('the loop variable occurs inside `%s`' % u(n)[:60])
+            return self.sym(u(n), opaque=True)
+        return go(e)
+
+    def zero(self, d):
+        sp = self.sp
+        try:
+            return sp.simplify(sp.expand(d)) == 0
+        except Exception:
+            return False
+
+    def at_most_n(self, e):
+        """`e <= N` is shown: every floor(q) that occurs with a positive coefficient is replaced by q (floor(q) <= q)
+        and the result minus N is zero or negative.  Only then does `e != N` mean that cells are left over: a last
+        stop beyond the length is harmless because slices clip."""
+        sp = self.sp
+        try:
+            e = sp.expand(e)
+            for _round in range(3):
+                fl = sorted(e.atoms(sp.floor), key=str)
+                if not fl:
+                    break
+                outer = [f for f in fl if not any(g is not f and g.has(f) for g in fl)]
+                dm = {f: sp.Dummy('f', positive=True) for f in outer}
+                for t in sp.Add.make_args(sp.expand(e.xreplace(dm))):
+                    if t.free_symbols & set(dm.values()) and not t.is_nonnegative:
+                        return False
+                e = sp.expand(e.xreplace({f: f.args[0] for f in outer}))
+            if e.atoms(sp.floor):
+                return False
+            d = sp.simplify(sp.expand(e - self.N))
+            return d == 0 or bool(d.is_nonpositive)
+        except Exception:
+            return False
+
+    def plain(self, d):
+        """The difference is a floor-polynomial of plain names and N only: sympy's zero test is trusted for those."""
+        return not self.minmax and not (set(d.free_symbols) & self.opaque) and not d.has(self.sp.Min, self.sp.Max)
+
+
+def _range_parts(e):
+    """range(...) / np.arange(...) with 1-3 positional integer arguments -> (first, end, step) as ast (None = default)."""
+    if isinstance(e, ast.Call) and (call_name(e) or '') in ('range', 'np.arange', 'numpy.arange') and 1 <= len(e.args) <= 3 \
+            and not any(isinstance(a, ast.Starred) for a in e.args) \
+            and all(k.arg == 'dtype' for k in e.keywords):
+        a = e.args
+        if len(a) == 1:
+            return (None, a[0], None)
+        return (a[0], a[1], a[2] if len(a) == 3 else None)
+    return None
+
+
+def _seq_model(e):
+    """A limit sequence: ('range', first, end, step, tail) where tail is the single appended last element or None."""
+    if isinstance(e, ast.Call) and (call_name(e) or '') in ('list', 'tuple', 'np.array', 'np.asarray') and len(e.args) == 1 \
+            and not [k for k in e.keywords if k.arg != 'dtype']:
+        return _seq_model(e.args[0])
+    r = _range_parts(e)
+    if r is not None:
+        return ('range',) + r + (None,)
+    if isinstance(e, ast.BinOp) and isinstance(e.op, ast.Add) and isinstance(e.right, (ast.List, ast.Tuple)) \
+            and len(e.right.elts) == 1 and not isinstance(e.right.elts[0], ast.Starred):
+        m = _seq_model(e.left)
+        if m is not None and m[4] is None and isinstance(e.left, ast.Call) and (call_name(e.left) or '') in ('list', 'tuple'):
+            return m[:4] + (e.right.elts[0],)
+    if isinstance(e, ast.List) and len(e.elts) == 2 and isinstance(e.elts[0], ast.Starred) \
+            and not isinstance(e.elts[1], ast.Starred):
+        m = _seq_model(e.elts[0].value)
+        if m is not None and m[4] is None:
+            return m[:4] + (e.elts[1],)
+    return None
+
+
+def _split_verdict(base, lo, hi, target, it):
+    """(verdict, detail) for `[base[lo:hi] for target in it]` (all expanded): 'match' / 'near' / 'far'."""
+    bt = u(base)
+    n_texts = {'len(%s)' % bt, '%s.shape[0]' % bt}
+    if isinstance(base, ast.Call) and (call_name(base) or '') in ('np.arange', 'numpy.arange', 'range') and len(base.args) == 1:
+        n_texts.add(u(base.args[0]))
+    L = _IntLift(n_texts)
+    sp, N = L.sp, L.N
+    one, zero_ = sp.Integer(1), sp.Integer(0)
+
+    def differs(d, what, upto=None):
+        # recognised role, content is another function of the same operands -> near; else cannot tell -> far.
+        # `upto`: the bound that must reach N; it is a violation only when it is shown to stay <= N (and is not N)
+        if L.plain(d) and (upto is None or L.at_most_n(upto)):
+            return ('near', what)
+        if L.plain(d) and upto is not None:
+            return ('far', what + ' (not decided: the bound is not shown to stay below the length; a bound beyond it is harmless)')
+        return ('far', what + ' (not decided: the expression involves min/max or values this rule does not model)')
+
+    def first_is_zero(a, what):
+        if a is None or L.zero(a):
+            return None
+        if a.is_number:
+            return ('near', '%s is %s, not 0: the cells before it are given to no worker' % (what, a))
+        return ('far', '%s is `%s`: not shown to be 0' % (what, a))
+
+    def closed_pairs(var, n_ast, f, g):
+        """starts f(i), stops g(i) for i in range(n)."""
+        i = sp.Symbol('i__', integer=True)
+        n = L(n_ast)
+        fe, ge = L(f, {var: i}), L(g, {var: i})
+        bad = first_is_zero(sp.expand(fe.subs(i, 0)), 'the first start `%s` at %s = 0' % (u(f)[:40], var))
+        if bad:
+            return bad
+        d = sp.expand(ge - fe.subs(i, i + 1))
+        if not L.zero(d):
+            return differs(d, 'the stop `%s` of one chunk is not the start `%s` of the next' % (u(g)[:50], u(f)[:50]))
+        last = sp.expand(ge.subs(i, n - 1))
+        d = sp.simplify(sp.expand(last - N))
+        if L.zero(d):
+            return ('match', 'first start 0, stop(i) = start(i+1), last stop = len(%s)' % bt[:40])
+        return differs(d, 'the last stop is %s, which is not the length N__ = len(%s) of the sequence that is split: the cells '
+                          'from the last stop on are given to no worker whenever the two differ, so the joined result depends on '
+                          'the number of workers' % (str(last).replace('N__', 'len(%s)' % bt[:30]), bt[:40]), upto=last)
+
+    def zipped(s_ast, t_ast):
+        S, T = _seq_model(s_ast), _seq_model(t_ast)
+        if S is None or T is None:
+            # zip(L[:-1], L[1:])
+            if isinstance(s_ast, ast.Subscript) and isinstance(t_ast, ast.Subscript) and u(s_ast.value) == u(t_ast.value) \
+                    and isinstance(s_ast.slice, ast.Slice) and isinstance(t_ast.slice, ast.Slice) \
+                    and s_ast.slice.lower is None and s_ast.slice.step is None and u(s_ast.slice.upper or ast.Constant(0)) == '-1' \
+                    and t_ast.slice.upper is None and t_ast.slice.step is None and u(t_ast.slice.lower or ast.Constant(0)) == '1':
+                M = _seq_model(s_ast.value)
+                if M is None:
+                    return ('far', 'limit sequence `%s` not recognised' % u(s_ast.value)[:80])
+                _k, a, E, st, tail = M
+                a = L(a) if a is not None else zero_
+                st = L(st) if st is not None else one
+                bad = first_is_zero(a, 'the first limit')
+                if bad:
+                    return bad
+                if tail is not None:
+                    d = sp.expand(L(tail) - N)
+                    return ('match', 'consecutive limits from 0 to len(%s)' % bt[:40]) if L.zero(d) else \
+                        differs(d, 'the last limit `%s` is not the length of `%s`' % (u(tail)[:40], bt[:40]), upto=L(tail))
+                d = sp.expand(L(E) - N)
+                if L.zero(sp.expand(d - st)):
+                    return ('match', 'consecutive limits 0, s, 2s, ... up to the first one >= len(%s)' % bt[:40])
+                if L.zero(d):
+                    return ('near', 'the limits `%s` stop below len(%s): the cells after the last limit are given to no worker'
+                            % (u(s_ast.value)[:60], bt[:40]))
+                return ('far', 'the last limit of `%s` is not related to len(%s)' % (u(s_ast.value)[:60], bt[:40]))
+            return ('far', 'limit sequences `%s` / `%s` not recognised' % (u(s_ast)[:60], u(t_ast)[:60]))
+        _k, a, E, st, tail = S
+        _k, a2, E2, st2, tail2 = T
+        if tail is not None:
+            return ('far', 'the starts carry an appended element')
+        a = L(a) if a is not None else zero_
+        a2 = L(a2) if a2 is not None else zero_
+        st = L(st) if st is not None else one
+        st2 = L(st2) if st2 is not None else one
+        E, E2 = L(E), L(E2)
+        bad = first_is_zero(a, 'the first start')
+        if bad:
+            return bad
+        if not L.zero(st - st2):
+            return differs(sp.expand(st - st2), 'starts and stops advance by different steps')
+        if not L.zero(sp.expand(a2 - a - st)):
+            return differs(sp.expand(a2 - a - st), 'the first stop is not the second start')
+        if tail2 is not None:
+            # starts a, a+s, ... < E ; stops a+s, ... < E, then the tail: equally many, consecutive
+            if not L.zero(sp.expand(E - E2)):
+                return ('far', 'the two ranges end at different bounds: whether zip() pairs every start with a stop is not decided')
+            d = sp.expand(L(tail2) - N)
+            if L.zero(d):
+                return ('match', 'starts 0, s, ...; stops s, 2s, ... and finally len(%s)' % bt[:40])
+            return differs(d, 'the last stop `%s` is not the length of `%s`: the remaining cells are given to no worker'
+                           % (u(tail2)[:40], bt[:40]), upto=L(tail2))
+        # both plain ranges
+        if L.zero(sp.expand(E2 - E - st)) and L.zero(sp.expand(E - N)):
+            return ('match', 'starts 0, s, ... < N; stops s, 2s, ... < N + s (the last one >= N)')
+        if L.zero(sp.expand(E2 - N)) and (L.zero(sp.expand(E - N)) or L.zero(sp.expand(E - E2))):
+            return ('near', 'every stop of `%s` is below len(%s): the cells after the last stop are given to no worker'
+                    % (u(t_ast)[:60], bt[:40]))
+        return ('far', 'plain ranges `%s` / `%s`: last stop not related to len(%s)' % (u(s_ast)[:50], u(t_ast)[:50], bt[:30]))
+
+    try:
+        if lo is None or hi is None:
+            return ('far', 'open slice bound')
+        # (1) the bounds are the two targets of the generator: the limits are pairs
+        if isinstance(target, ast.Tuple) and len(target.elts) == 2 and all(isinstance(t, ast.Name) for t in target.elts) \
+                and isinstance(lo, ast.Name) and isinstance(hi, ast.Name):
+            ta, tb = target.elts[0].id, target.elts[1].id
+            if (lo.id, hi.id) == (tb, ta):
+                return ('far', 'the slice runs from the second to the first element of the limit pair')
+            if (lo.id, hi.id) != (ta, tb):
+                return ('far', 'slice bounds are not the targets of the generator')
+            if isinstance(it, ast.Call) and (call_name(it) or '') == 'list' and len(it.args) == 1:
+                it = it.args[0]
+            if isinstance(it, ast.Call) and (call_name(it) or '') == 'zip' and len(it.args) == 2 and not it.keywords:
+                return zipped(it.args[0], it.args[1])
+            if isinstance(it, (ast.ListComp, ast.GeneratorExp)) and len(it.generators) == 1 and not it.generators[0].ifs \
+                    and isinstance(it.elt, ast.Tuple) and len(it.elt.elts) == 2 and isinstance(it.generators[0].target, ast.Name):
+                r = _range_parts(it.generators[0].iter)
+                if r is not None and (r[0] is None or u(r[0]) == '0') and r[2] is None:
+                    return closed_pairs(it.generators[0].target.id, r[1], it.elt.elts[0], it.elt.elts[1])
+            return ('far', 'limit pairs `%s` not recognised' % u(it)[:100])
+        # (2) the bounds are expressions of one counter over range(n)
+        if isinstance(target, ast.Name):
+            r = _range_parts(it)
+            if r is not None and (r[0] is None or u(r[0]) == '0') and r[2] is None:
+                return closed_pairs(target.id, r[1], lo, hi)
+            if r is not None and r[2] is not None and (isinstance(hi, ast.BinOp) and isinstance(lo, ast.Name) and lo.id == target.id):
+                # [B[i:i + s] for i in range(0, N, s)]
+                a = L(r[0]) if r[0] is not None else zero_
+                bad = first_is_zero(a, 'the first start')
+                if bad:
+                    return bad
+                i = sp.Symbol('i__', integer=True)
+                st = L(r[2])
+                d = sp.expand(L(hi, {target.id: i}) - i - st)
+                if not L.zero(d):
+                    return differs(d, 'the chunk length `%s` - %s is not the step `%s` of the starts' % (u(hi)[:40], target.id, u(r[2])[:30]))
+                d = sp.expand(L(r[1]) - N)
+                if L.zero(d):
+                    return ('match', 'starts 0, s, ... < len(%s), each chunk s long' % bt[:40])
+                return differs(d, 'the starts run up to `%s`, not up to len(%s)' % (u(r[1])[:40], bt[:40]), upto=L(r[1]))
+        return ('far', 'generator `for %s in %s` not recognised' % (u(target)[:30], u(it)[:80]))
+    except _SplitFar as e:
+        return ('far', str(e))
+    except AnalysisIncomplete:
+        raise
+    except Exception as e:      # sympy could not handle the expression
+        return ('far', 'symbolic comparison failed: %r' % (e,))
+
+
+def d5_worker_split(ck, mods):
+    rule = 'C19.D5.worker-split'
+    n = 0
+    for mod in mods:
+        for q, fn in mod.functions.items():
+            calls = [c for c in walk_local(fn) if isinstance(c, ast.Call) and isinstance(c.func, ast.Attribute)
+                     and c.func.attr in _MAP_ATTRS and len(c.args) >= 2 and not isinstance(c.args[1], ast.Starred)]
+            if not calls:
+                continue
+            fi = finfo(mod, fn)
+            for c in calls:
+                try:
+                    it = fi.expand(c.args[1])
+                except Exception:
+                    continue
+                if isinstance(it, ast.Call) and (call_name(it) or '') in ('list', 'tuple', 'iter') and len(it.args) == 1:
+                    it = it.args[0]
+                what = '%s(..., %s)' % (u(c.func)[:30], u(c.args[1])[:100])
+                if isinstance(it, ast.Call) and (call_name(it) or '') in ('np.array_split', 'numpy.array_split') and it.args:
+                    n += 1
+                    ck.analysed(mod, fn)
+                    ck.ok(rule, mod, c, what, 'np.array_split hands out every element of its argument exactly once')
+                    continue
+                if not (isinstance(it, (ast.ListComp, ast.GeneratorExp)) and len(it.generators) == 1
+                        and isinstance(it.elt, ast.Subscript) and isinstance(it.elt.slice, ast.Slice)):
+                    continue        # not the role "each worker gets a slice of one sequence"
+                g = it.generators[0]
+                sl = it.elt.slice
+                tn = {x.id for x in ast.walk(g.target) if isinstance(x, ast.Name)}
+                if tn & {x.id for x in ast.walk(it.elt.value) if isinstance(x, ast.Name)}:
+                    continue        # the sliced object itself varies with the generator: another role
+                n += 1
+                ck.analysed(mod, fn)
+                if g.ifs or sl.step is not None or getattr(g, 'is_async', 0):
+                    ck.missing(rule, '%s %s::%s `%s`: filtered / strided work split not modelled' % (mod.loc(c), mod.rel, q, what))
+                    continue
+                v, detail = _split_verdict(it.elt.value, sl.lower, sl.upper, g.target, g.iter)
+                ck.decide(v, rule, mod, c, q, 'work split of `%s` over the workers of `%s`' % (u(it.elt.value)[:60], u(c.func)[:30]),
+                          detail_ok=detail, detail_bad=detail)
+    return n
+
+
 def check(ck):
     repo = ck.repo
     for rel in load_refused_pyx(repo):
@@ -2491,6 +2834,8 @@ def check(ck):
     # counted per kernel: whether a zeroing pass is its own prange loop, a sequential loop or `out[:] = 0`
     # is immaterial to ownership (7 prange loops in 4 kernels on the pinned tree)
     ck.floor('C19.D5.prange', npr, 4, 'kernels with a prange loop')
+    nw = d5_worker_split(ck, [m for m in repo.py_modules() if '/apps/' not in m.rel and '/data/' not in m.rel])
+    ck.floor('C19.D5.worker-split', nw, 2, 'process-pool maps over slices of one sequence (msm/bace.py)')
     # D4
     rels = ANCHORED + EXTRA_ENTRY_MODULES
     n4 = d4_effects(ck, rels)
